@@ -145,6 +145,9 @@ pub struct RunOpts {
     pub par_log: bool,
     /// register the real evaluator under identifier A and a poisoned one under the default identifier
     pub eval_id_a: bool,
+    /// how the set-up supplies the generator: 0 `insert`, 1 `entry().or_insert_with(..)`, 2 `entry().or_insert(..)`,
+    /// 3 `if !contains { insert }` -- every one of them is "a generator supplied by the user"
+    pub rng_supply: u8,
 }
 
 /// An evaluator nobody should reach: it attaches a wrong objective value without calling the objective function.
@@ -295,12 +298,25 @@ where
     let log_lt = opts.log_lt;
     let eval_id_a = opts.eval_id_a;
     let eval_both = opts.eval_both;
+    let rng_supply = opts.rng_supply;
     let body = || {
         config.optimize_with(problem, |state| {
-            if counting {
-                state.insert(Random::with_rng::<CountingRng>(seed));
-            } else {
-                state.insert(Random::new(seed));
+            let generator = || if counting { Random::with_rng::<CountingRng>(seed) } else { Random::new(seed) };
+            match rng_supply {
+                0 => {
+                    state.insert(generator());
+                }
+                1 => {
+                    state.entry::<Random>().or_insert_with(generator);
+                }
+                2 => {
+                    state.entry::<Random>().or_insert(generator());
+                }
+                _ => {
+                    if !state.contains::<Random>() {
+                        state.insert(generator());
+                    }
+                }
             }
             if eval_both {
                 state.insert_evaluator_as::<mahf::identifier::A>(Sequential::<P>::new());
@@ -1083,12 +1099,27 @@ pub fn main(args: &Args) -> usize {
                     }};
                 }
                 let (ron_ok, clone_same, ron, named) = match spec["prob"]["kind"].as_str().unwrap() {
+                    // configurations assembled from a builder term / a condition in a place (serterms.rs)
+                    "real" if name == "struct" => facts!(super::serterms::struct_config(&params["term"])),
+                    "real" if name == "condp" => facts!(super::serterms::cond_config(params)),
                     "real" => facts!(real_template::<RealProblem>(name, params, n)),
                     "bits" => facts!(bit_template::<BitProblem>(name, params, n)),
                     _ => facts!(perm_template::<TspProblem>(name, params, n)),
                 };
+                if ron_ok == 0 && ron.starts_with("ctor:") && spec["opt"].as_u64() == Some(1) {
+                    // a perturbed parameter set the constructor does not accept: not a configuration
+                    continue;
+                }
                 // `evaluate()` is `evaluate_with::<Global>()`: the same configuration
-                let key = if name == "cond" {
+                let key = if name == "struct" {
+                    // the structure is computed from the term by the specification (Trace_Ser: Str)
+                    String::new()
+                } else if name == "condp" {
+                    // `via` selects one of two equivalent constructors: not a parameter
+                    let mut q = params.clone();
+                    q.as_object_mut().map(|m| m.remove("via"));
+                    format!("condp|{q}")
+                } else if name == "cond" {
                     format!("cond|{}", params["c"].as_str().unwrap())
                 } else if name == "ident" {
                     format!("ident|{}", params["id"].as_str().map(|i| if i == "default" { "mahf::Global" } else { i }).unwrap())
@@ -1101,8 +1132,9 @@ pub fn main(args: &Args) -> usize {
                 let ns = sers.len() as i64 + 1;
                 let _ = named;
                 let ser_id = *sers.entry(ron).or_insert(ns);
-                out.emit(&json!({"run": k, "t": name, "params": params, "n": n, "key": key_id, "ser": ser_id,
-                                 "ron_ok": ron_ok, "clone_same": clone_same}));
+                let term = if name == "struct" { params["term"].clone() } else { json!({"op": "-", "v": "", "a": [], "e": []}) };
+                out.emit(&json!({"run": k, "t": name, "params": if name == "struct" { json!({}) } else { params.clone() }, "n": n,
+                                 "key": key_id, "ser": ser_id, "term": term, "ron_ok": ron_ok, "clone_same": clone_same}));
             }
         }
         // only the serialised component trees of the templates (Wiring)
